@@ -75,12 +75,13 @@ def pattern_entries(prog, rep, entries, rule="PAT", not_charged=(), allow_raw=()
     return P, objs
 
 
-def pattern_method(prog, rep, qname, raw_attrs, rule="PAT", allow_result_arith=True):
+def pattern_method(prog, rep, qname, raw_attrs, rule="PAT", allow_result_arith=True, strict=False):
     """Analyse a method whose object holds raw weight matrices in `raw_attrs`: no *decision* (branch, index,
     loop) may depend on weight values; the numeric result may (e.g. a sample, a covariance)."""
     from ..core import ObjV
     f = need(prog, qname)
     P = PT.Pattern(prog)
+    P.strict_values = strict          # strict: not even `x == 0` may decide anything (quantities whose zero pattern has no meaning)
     obj = ObjV(f.module, f.cls, {a: P.fresh_matrix() for a in raw_attrs}, tag="self")
     bound = {p_: PT.PV() for p_ in f.params}
     try:
@@ -91,7 +92,8 @@ def pattern_method(prog, rep, qname, raw_attrs, rule="PAT", allow_result_arith=T
     for (qq, line, msg) in P.unknown:
         rep.unk(rule + ".method", {"file": f.module.relpath, "line": line, "function": qq, "construct": msg}, msg)
     if not P.violations:
-        rep.ok(rule + ".method", fwhere(f), "no branch, index or loop of %s depends on the values of self.%s - only on their zero pattern" % (f.name, "/".join(raw_attrs)))
+        rep.ok(rule + ".method", fwhere(f), "no branch, index or loop of %s depends on the values of self.%s%s" % (
+            f.name, "/".join(raw_attrs), "" if strict else " - only on their zero pattern"))
     for k, v in P.violations.items():
         rep.bad(rule + ".value-sensitive", {"file": v["file"], "line": v["line"], "function": v["function"], "construct": v["construct"]},
                 "arithmetic on raw weights reaches a decision: " + "; ".join(v["sinks"][:3]), detail=v["sinks"])
@@ -442,6 +444,36 @@ def isin_over_sets(rep, prog, qnames, rule="API.isin-set"):
                "%d np.isin / np.in1d calls inspected; none is handed a Python set" % n)
 
 
+def pinv_cutoff(rep, S, f, rule):
+    """np.linalg.pinv(M, rcond=c) drops every direction of M below c * largest singular value: with variables on very different
+    scales (a well-conditioned but badly scaled covariance) that is not the inverse any more.  An explicit cut-off is reported."""
+    hits = [c for c in S.select("call", qname=f.qname) if c.callkind == "ext" and c.target in ("numpy.linalg.pinv", "scipy.linalg.pinv", "scipy.linalg.pinvh")
+            and (len(c.args) > 1 or any(k in c.kwargs for k in ("rcond", "rtol", "atol", "cond")))]
+    if hits:
+        rep.bad(rule, fwhere(f, hits[0].node), "a pseudo-inverse with an explicit cut-off replaces the inverse: directions whose scale is below the cut-off relative to the "
+                "largest one are dropped although the block is invertible")
+    return bool(hits)
+
+
+def cartesian_dtype(rep, prog, qnames, rule="API.cartesian-dtype"):
+    """utils.cartesian(arrays, out=None, dtype=np.byte) allocates int8 unless told otherwise: node labels >= 128 wrap to negative
+    numbers.  Every call whose arrays are not plain booleans must pass a dtype."""
+    n = 0
+    for q in qnames:
+        f = prog.funcs.get(q)
+        if f is None:
+            continue
+        for node in ast.walk(f.node):
+            if isinstance(node, ast.Call) and (dotted_of(node.func) or "").split(".")[-1] == "cartesian":
+                n += 1
+                has_dtype = any(k.arg == "dtype" for k in node.keywords) or len(node.args) >= 3
+                if not has_dtype:
+                    rep.bad(rule, fwhere(f, node), "cartesian(...) without dtype builds an int8 array: node labels of 128 and more wrap to negative indices")
+    if not rep.count(rule, "VIOLATION"):
+        rep.ok(rule, {"file": "sempler/utils.py", "line": 0, "function": "(%d functions)" % len(qnames), "construct": "cartesian(...)"},
+               "%d cartesian(...) calls inspected; each states its dtype" % n)
+
+
 def empty_index_arrays(rep, prog, qnames, rule):
     """np.array(<list that may be empty>) is float64 when the list is empty, and numpy refuses a float array as an index
     (IndexError) - the list itself would have been accepted.  Reported: an index / store position that is np.array(...) /
@@ -591,3 +623,44 @@ def no_foreign_writes(rep, prog, qname, rule="OWN"):
                         "%s %s %s `%s`" % (w.how, "may write" if l[0].endswith("?") else "writes", what, l[1]))
     if not bad:
         rep.ok(rule + ".writes", fwhere(f), "%s writes only arrays it allocated itself" % f.name)
+
+
+def inputs_intact(rep, prog, qnames, rule="INTACT"):
+    """the entry points of a graph property return a function of the matrix they are given *and leave it as it was*: a
+    gate / helper that consumes the caller's matrix (Kahn's algorithm run on the argument itself) changes what every later
+    step of the same call — and every later call — sees.  Interprocedural ownership analysis from each entry point."""
+    for q in qnames:
+        no_foreign_writes(rep, prog, q, rule=rule + "." + q.rsplit(".", 1)[1])
+
+
+def negative_zero_slices(rep, prog, qnames, rule="SLICE.minus-zero"):
+    """`x[-k:]` / `x[:-k]` with a k that can be 0 is the whole sequence / the empty one — the classic off-by-sign at
+    size 0.  Flags slices whose bound is the negation of a non-constant that no enclosing test mentions; zero findings is
+    the expected count."""
+    import ast as _ast
+    n = 0
+    for q in qnames:
+        f = need(prog, q)
+        parents = {}
+        for a in _ast.walk(f.node):
+            for c in _ast.iter_child_nodes(a):
+                parents[c] = a
+        for a in _ast.walk(f.node):
+            if not (isinstance(a, _ast.Subscript) and isinstance(a.slice, _ast.Slice)):
+                continue
+            for b in (a.slice.lower, a.slice.upper):
+                if isinstance(b, _ast.UnaryOp) and isinstance(b.op, _ast.USub) and not isinstance(b.operand, _ast.Constant):
+                    names = {x.id for x in _ast.walk(b.operand) if isinstance(x, _ast.Name)}
+                    guarded, c = False, a
+                    while c in parents:
+                        c = parents[c]
+                        if isinstance(c, (_ast.If, _ast.While, _ast.IfExp)) and names & {x.id for x in _ast.walk(c.test) if isinstance(x, _ast.Name)}:
+                            guarded = True
+                    n += 1
+                    w = {"file": f.module.relpath, "line": a.lineno, "function": f.qname, "construct": _ast.unparse(a)}
+                    if guarded:
+                        rep.unk(rule, w, "slice bound -(%s) under a test on the same variable: whether 0 is excluded is not decided" % _ast.unparse(b.operand))
+                    else:
+                        rep.bad(rule, w, "for %s = 0 the bound -0 is 0: the slice is the whole sequence (lower bound) / empty (upper bound), not the last 0 items" % _ast.unparse(b.operand))
+    if not n:
+        rep.ok(rule, fwhere(need(prog, qnames[0])), "no slice bound of the form -(variable)")
